@@ -515,7 +515,7 @@ def instances(tier):
     out.append(Inst(layer_noise, dict(n=2 if q else 3, first=None), budget=80 if q else 600))
     out.append(Inst(layer_noise, dict(n=2 if q else 4, first=[1, 0x00]), budget=80 if q else 900, label="apdu-area,local"))
     for t in ((0x00, 0x01, 0x13, 0x14) if q else (0x00, 0x01, 0x02, 0x03, 0x06, 0x08, 0x12, 0x13, 0x14, 0x7F, 0x80)):
-        out.append(Inst(layer_noise, dict(n=(1 if t == 0x01 else 2) if q else (2 if t == 0x01 else 4), first=[1, 0x80, t]),
+        out.append(Inst(layer_noise, dict(n=(1 if t == 0x01 else 2) if q else (2 if t == 0x01 else 3), first=[1, 0x80, t]),
                         budget=80 if q else 600,
                         label="network-message-%02x" % t))
     out.append(Inst(routed_noise, dict(n=1 if q else 3), budget=120 if q else 900, path_timeout=60))
@@ -523,5 +523,5 @@ def instances(tier):
     out.append(Inst(half_open, {}, budget=120 if q else 300, path_timeout=60))
     if not q:
         out.append(Inst(layer_noise, dict(n=6, first=[1, 0x20]), budget=900, label="apdu-area,dnet"))
-        out.append(Inst(layer_noise, dict(n=6, first=[1, 0x08]), budget=900, label="apdu-area,snet"))
+        out.append(Inst(layer_noise, dict(n=5, first=[1, 0x08]), budget=1500, label="apdu-area,snet"))
     return out
